@@ -54,6 +54,10 @@ fn strat_reg(t: Tier) -> BoxedStrategy<RegCase> {
                     let xs = x.col_vars(0).iter().map(|v| v.sqrt()).collect::<Vec<f64>>();
                     let y: Vec<f64> = (0..n)
                         .map(|i| {
+                            // "all y": one case in ten has a constant (non-zero) target
+                            if noise[0] > 0.8 {
+                                return (b.abs() * 3.0 + 0.5) * ysc * if b < 0.0 { -1.0 } else { 1.0 };
+                            }
                             let signal: f64 = if pure_noise { 0.0 } else { (0..p).map(|j| w[j] * x.at(i, j) / xs[j].max(1e-300)).sum::<f64>() + b * 3.0 };
                             (signal + noise[i] * 0.3) * ysc
                         })
@@ -206,6 +210,7 @@ fn check_reg(case: &RegCase, ctx: &mut Ctx) -> Result<(), Fail> {
     ctx.label_if(case.f32, "f32");
     ctx.label(if case.normalize { "ridge-normalize" } else { "ridge-raw" });
     ctx.label_if(case.pure_noise, "pure-noise-target");
+    ctx.label_if(case.y.iter().all(|v| *v == case.y[0]), "constant-target");
     if case.f32 {
         run::<f32>(case, ctx)
     } else {
@@ -237,7 +242,7 @@ pub fn property() -> Property {
     Property {
         id: "C07",
         quick_mult: 64,
-        rule: "design matrices U diag(s) V^T (cond 10, 1e3 or 1e6; f32: <= 1e2) with 1<=p<=8, p<n<=50 (quick) / 80 (thorough), each column rescaled by 10^[-2,3] and shifted by up to 100 spreads (70% of the columns); targets = linear signal + intercept + noise, or pure noise, at scales 1e-2..1e2; alpha in 1e-3..1e2; both OLS solvers, both ridge solvers, both normalisation settings on every case; fresh rows for predict. non-trivial = p >= 2, a column with |mean| > 0.1 std and cond([X 1]) >= 10; distinct = distinct serialised case",
+        rule: "design matrices U diag(s) V^T (cond 10, 1e3 or 1e6; f32: <= 1e2) with 1<=p<=8, p<n<=50 (quick) / 80 (thorough), each column rescaled by 10^[-2,3] and shifted by up to 100 spreads (70% of the columns); targets = linear signal + intercept + noise, pure noise, or (one case in ten) a non-zero constant, at scales 1e-2..1e2; alpha in 1e-3..1e2; both OLS solvers, both ridge solvers, both normalisation settings on every case; fresh rows for predict. non-trivial = p >= 2, a column with |mean| > 0.1 std and cond([X 1]) >= 10; distinct = distinct serialised case",
         assumptions: vec![
             format!("residual / gradient bounds are C*eps*n*scale with C = {} and scale = ||A|| (||A|| ||w|| + ||y||)", C),
             "the ridge SVD solver (gradient, agreement with Cholesky) is asserted only where cond(Z^T Z + alpha I) * 64 p eps < 1, i.e. a factor 64 away from the solver's rank cut-off; this excludes f32 cases only (alpha >= 1e-3 bounds the condition number by 1e12)".into(),
